@@ -142,7 +142,7 @@ func (w *world) quote(depth int) []byte {
 	if depth > 1 || r.Chance(6) {
 		return r.Bytes(r.Intn(30))
 	}
-	q := w.datagram(depth+1, true)
+	q, _ := w.datagram(depth+1, true)
 	switch r.Intn(8) {
 	case 0:
 		return q[:r.Intn(len(q)+1)]
@@ -153,7 +153,7 @@ func (w *world) quote(depth int) []byte {
 }
 
 // datagram builds a SCION datagram. inner=true biases towards what a quoted packet looks like.
-func (w *world) datagram(depth int, inner bool) []byte {
+func (w *world) datagram(depth int, inner bool) ([]byte, string) {
 	r := w.r
 	s, _ := wiregen.GenSCION(r)
 	// destination host: mostly an IP address of this host or a registered service
@@ -207,9 +207,11 @@ func (w *world) datagram(depth int, inner bool) []byte {
 	// upper layers
 	var l4 uint8
 	var upper []byte
+	kind := ""
 	switch r.Intn(12) {
 	case 0, 1, 2, 3:
 		l4 = 17
+		kind = "udp"
 		u := make([]byte, 8)
 		binary.BigEndian.PutUint16(u, uint16(w.port()))
 		binary.BigEndian.PutUint16(u[2:], uint16(w.port()))
@@ -243,12 +245,23 @@ func (w *world) datagram(depth int, inner bool) []byte {
 			t = slayers.SCMPType(r.U64())
 		}
 		upper = append([]byte{byte(t), byte(r.U64()), byte(r.U64()), byte(r.U64())}, w.scmpBody(t, depth)...)
+		switch {
+		case t == 128 || t == 130:
+			kind = "scmp-req"
+		case t == 129 || t == 131:
+			kind = "scmp-reply"
+		case t == 1 || t == 2 || t == 4 || t == 5 || t == 6:
+			kind = "scmp-err"
+		default:
+			kind = "scmp-other"
+		}
 		if r.Chance(8) {
 			upper = upper[:r.Intn(len(upper)+1)]
 		}
 	default:
 		l4 = []uint8{6, 203, 0, 253, 200, 201}[r.Intn(6)]
 		upper = r.Bytes(r.Intn(30))
+		kind = "other-l4"
 	}
 	// extension headers
 	next := l4
@@ -274,9 +287,11 @@ func (w *world) datagram(depth int, inner bool) []byte {
 	}
 	if r.Chance(25) {
 		mkExt(201, false)
+		kind += "+e2e"
 	}
 	if r.Chance(20) {
 		mkExt(200, true)
+		kind += "+hbh"
 	}
 	if r.Chance(4) { // misordered / repeated
 		if r.Bool() {
@@ -288,10 +303,13 @@ func (w *world) datagram(depth int, inner bool) []byte {
 	s.NextHdr = slayers.L4ProtocolType(next)
 	payload := append(ext, upper...)
 	out, err, pn := wiregen.RealSerialize(s, payload, true)
-	if err != nil || pn != "" {
-		return r.Bytes(40)
+	if s.DstAddrType == slayers.T4Svc {
+		kind += "+svc"
 	}
-	return out
+	if err != nil || pn != "" {
+		return r.Bytes(40), "unserializable"
+	}
+	return out, kind
 }
 
 // ---- independent reading of a datagram (for the predicate) ---------------------------------------
@@ -565,15 +583,15 @@ func main() {
 		if i%500 == 0 || i%500 == 250 {
 			// the model driver keeps one configuration: re-announce on every mode switch
 		}
-		data := w.datagram(0, false)
-		tag := "valid"
+		data, kind := w.datagram(0, false)
+		tag := kind
 		switch r.Intn(12) {
 		case 0:
 			data[r.Intn(len(data))] ^= 1 << uint(r.Intn(8))
-			tag = "bitflip"
+			tag = kind + "/bitflip"
 		case 1:
 			data = data[:r.Intn(len(data)+1)]
-			tag = "truncated"
+			tag = kind + "/truncated"
 		case 2:
 			if r.Chance(30) {
 				data = r.Bytes(r.Intn(100))
